@@ -95,7 +95,7 @@ class BaseBlock(ABC):
             Normalised data block.
         """
         zscore_re = stats.estimate_zscore(self.data, loc_method, scale_method, axis)
-        return self.__class__(zscore_re.data, self.header.new_header())
+        return self._new_like(zscore_re.data, self.header.new_header())
 
     def pad_samples(
         self,
@@ -133,7 +133,7 @@ class BaseBlock(ABC):
         data_pad *= pad_values[:, None]
         data_pad[:, offset : offset + self.data.shape[1]] = self.data
         # The first column of the padded block lies ``offset`` samples before the data
-        return self.__class__(
+        return self._new_like(
             data_pad,
             self.header.new_header(
                 {
@@ -142,6 +142,10 @@ class BaseBlock(ABC):
                 },
             ),
         )
+
+    def _new_like(self, data: np.ndarray, header: Header) -> Self:
+        """Build a block of the same kind, keeping what the subclass adds."""
+        return self.__class__(data, header)
 
     @abstractmethod
     def plot(self, *args, **kwargs) -> None:  # noqa: ANN002, ANN003
@@ -206,6 +210,9 @@ class FilterbankBlock(BaseBlock):
         """
         return self.data.shape[0]
 
+    def _new_like(self, data: np.ndarray, header: Header) -> FilterbankBlock:
+        return FilterbankBlock(data, header, self.dm)
+
     def plot(self, *args, **kwargs) -> None:  # noqa: ANN002, ANN003
         """Plot the data block."""
         raise NotImplementedError
@@ -239,7 +246,7 @@ class FilterbankBlock(BaseBlock):
             "nsamples": self.header.nsamples // tfactor,
             "nchans": self.header.nchans // ffactor,
         }
-        return FilterbankBlock(new_ar, self.header.new_header(changes))
+        return FilterbankBlock(new_ar, self.header.new_header(changes), self.dm)
 
     def get_tim(self) -> TimeSeries:
         """Sum across all frequencies for each time sample.
@@ -413,6 +420,9 @@ class DMTBlock(BaseBlock):
             Number of DMs.
         """
         return self.data.shape[0]
+
+    def _new_like(self, data: np.ndarray, header: Header) -> DMTBlock:
+        return DMTBlock(data, header, self.dms)
 
     def plot(self, *args, **kwargs) -> None:  # noqa: ANN002, ANN003
         """Plot the data block."""
